@@ -423,7 +423,7 @@ impl Check for C02 {
     fn meta(&self) -> Meta {
         Meta {
             level: "fault_enumeration",
-            rule: "byte strings from a frame grammar (every known type, HTTP/2-reserved, grease/unknown types, all varint forms, right/short/long payloads, 1-4 frames, drawn truncation; the first runs enumerate a systematic family of short strings: type x payload pattern x truncation point x ending) x ending {FIN with/after last chunk, left open, RESET overtaking at a drawn point} x 1-3 drawn chunkings per string; part (b), two runs in five: a valid request or response prefix followed by one frame cut by the end of the stream (DATA inside payload or length, unknown frame, trailing HEADERS, frame type) delivered to a real server / client following the documented call pattern, and GOAWAY / MAX_PUSH_ID / CANCEL_PUSH with a payload longer or shorter than its field on an open control stream after SETTINGS, both roles: the connection error H3_FRAME_ERROR must be reported by the call in progress and by the driver and be the code the transport is closed with first; a run is non-trivial if at least 2 chunk deliveries or a RESET happened; distinct = distinct schedule signatures",
+            rule: "byte strings from a frame grammar (every known type, HTTP/2-reserved, grease/unknown types, all varint forms, right/short/long payloads, 1-4 frames, drawn truncation; the first runs enumerate a systematic family of short strings: type x payload pattern x truncation point x ending) x ending {FIN with/after last chunk, left open, RESET overtaking at a drawn point} x 1-3 drawn chunkings per string; part (b), two runs in five: a valid request or response prefix followed by one frame cut by the end of the stream (DATA inside payload or length, unknown frame, trailing HEADERS, frame type), or - one of these runs in four - a stream whose very first frame is the one that is cut (HEADERS inside its payload, its length or right after its type, a multi-byte type, an unknown frame; optionally behind complete unknown frames), delivered to a real server / client following the documented call pattern, and GOAWAY / MAX_PUSH_ID / CANCEL_PUSH with a payload longer or shorter than its field on an open control stream after SETTINGS, both roles: the connection error H3_FRAME_ERROR must be reported by the call in progress and by the driver and be the code the transport is closed with first; a run is non-trivial if at least 2 chunk deliveries or a RESET happened; distinct = distinct schedule signatures",
             real: &["h3::frame::FrameStream", "h3::frame::FrameDecoder", "h3::proto::frame::Frame::decode", "h3::stream::BufRecvStream", "h3::buf::BufList", "h3::proto::varint", "h3::error::internal_error::InternalConnectionError::got_frame_error", "part (b): h3 server and client request paths, control stream processing, connection error propagation and close"],
             stub: &["QUIC transport (SimQuic receive stream fed by a scripted writer)", "executor (simexec)", "reader task obeying the poll_next/poll_data contract"],
             assumptions: &["transport chunks are never empty", "0x41 (WebTransport bidi signal) is not generated as a frame type: it is an extension with its own framing (C19)", "for SETTINGS with a truncated entry both H3_FRAME_ERROR and H3_SETTINGS_ERROR are admissible"],
